@@ -38,12 +38,12 @@ type mixEntry struct {
 var propMix = map[string][]mixEntry{
 	"C01": {{"did", "c01", 3}, {"mixed", "c01", 4}, {"staking", "c01", 3}, {"authz", "c01", 2}, {"timeout", "c01", 1}},
 	"C03": {{"staking", "c03", 6}, {"mixed", "c03", 3}},
-	"C02": {{"mixed", "c01", 1}, {"mixed", "c03", 1}, {"mixed", "", 3}, {"long", "", 3}, {"timeout", "", 1}, {"staking", "", 1}, {"authz", "", 1}},
+	"C02": {{"mixed", "c01", 1}, {"mixed", "c03", 1}, {"mixed", "", 3}, {"long", "", 3}, {"timeout", "", 1}, {"staking", "", 1}, {"authz", "", 1}, {"capacity", "", 1}},
 	"C04": {{"mixed", "", 5}, {"long", "", 2}, {"timeout", "", 1}},
 	"C05": {{"timeout", "", 4}, {"mixed", "", 3}},
 	"C06": {{"mixed", "", 4}, {"long", "", 2}, {"reward", "", 2}},
-	"C07": {{"mixed", "", 4}, {"long", "", 2}, {"reward", "", 1}},
-	"C08": {{"reward", "", 5}, {"mixed", "", 2}, {"long", "", 1}},
+	"C07": {{"mixed", "", 4}, {"long", "", 2}, {"reward", "", 1}, {"capacity", "", 1}},
+	"C08": {{"reward", "", 5}, {"mixed", "", 2}, {"long", "", 1}, {"capacity", "", 1}},
 	"C09": {{"authz", "", 6}, {"mixed", "", 2}},
 	"C10": {{"authz", "", 6}, {"mixed", "", 2}},
 	"C11": {{"long", "", 3}, {"longer", "", 1}},
